@@ -1319,6 +1319,101 @@ fn tcp_pass(specs: Vec<(TSpec, &'static str)>, par: usize, verbose: bool) -> (Ev
 	(ev, violations, errs)
 }
 
+// ---------------------------------------------------------------------------------------------------------------
+// The low-level assembly (`ConnectionGuard::try_acquire` + `ConnectionState` + `http::call_with_service_builder` /
+// `ws::connect`, as in the repository's low-level example): the permit handed to the library with the connection state
+// must be held for as long as the call runs.
+
+async fn lowlevel_case(seed: u64) -> Out {
+	let mut out = Out::default();
+	let mut r = Rng::new(seed);
+	let max = 1 + r.below(3) as usize;
+	let sh = Arc::new(Shared::default());
+	let mut low = jrv::lowlevel::LowLevel::new(ServerConfig::default(), module(sh.clone()));
+	low.guard = ConnectionGuard::new(max);
+	let guard = low.guard.clone();
+	let low = Arc::new(low);
+	macro_rules! bad {
+		($sig:expr, $($arg:tt)*) => { out.violations.push(($sig.to_string(), format!($($arg)*))) };
+	}
+	let occ = |g: &ConnectionGuard| g.max_connections().saturating_sub(g.available_connections());
+	let mut held: Vec<(String, tokio::task::JoinHandle<jrv::memsrv::HttpReply>)> = Vec::new();
+	let mut wss: Vec<RawWs> = Vec::new();
+	// fill the limit with held HTTP calls and WebSocket sessions
+	for k in 0..max {
+		out.attempts += 1;
+		if r.chance(1, 3) {
+			match low.ws().await {
+				Ok(ws) => wss.push(ws),
+				Err(e) => {
+					bad!("refused-with-free-slot/lowlevel-ws-open", "{k} of {max} slots in use: {e}");
+					return out;
+				}
+			}
+		} else {
+			let tag = format!("l{k}");
+			let body = json!({"jsonrpc": "2.0", "id": 1, "method": "hold", "params": [tag]}).to_string().into_bytes();
+			let l2 = low.clone();
+			let t = tokio::spawn(async move { l2.http_post(body).await });
+			settle(3).await;
+			if !sh.started.lock().unwrap().contains(&tag) {
+				bad!("refused-with-free-slot/lowlevel-http-held-call", "{k} of {max} slots in use but the held call did not start");
+				return out;
+			}
+			held.push((tag, t));
+		}
+		out.admitted += 1;
+		settle(2).await;
+		out.occupancy_checks += 1;
+		if occ(&guard) != k + 1 {
+			bad!(format!("occupancy-wrong/{}/lowlevel", if occ(&guard) > k + 1 { "slot-not-returned" } else { "slot-returned-early" }), "{} connection(s) are being served through the low-level assembly, the guard shows {} of {max} in use", k + 1, occ(&guard));
+			return out;
+		}
+	}
+	// one more of each kind: refused
+	let before = sh.started.lock().unwrap().len();
+	out.attempts += 2;
+	let rep = low.http_post(json!({"jsonrpc": "2.0", "id": 1, "method": "probe"}).to_string().into_bytes()).await;
+	if rep.status != 429 {
+		bad!("not-refused-429/lowlevel-http-call", "{max} of {max} slots in use but the attempt got status {} {}", rep.status, rep.text());
+	} else {
+		out.refused += 1;
+	}
+	if let Ok(ws) = low.ws().await {
+		bad!("cap-exceeded/lowlevel-ws-open", "{max} of {max} slots in use but a WebSocket session was admitted");
+		drop(ws);
+	} else {
+		out.refused += 1;
+	}
+	if sh.started.lock().unwrap().len() != before {
+		bad!("handler-ran-for-refused/lowlevel-http-call", "a refused attempt reached a handler");
+	}
+	// everything ends; every slot returns
+	for (tag, t) in held {
+		if let Some(g) = sh.gates.lock().unwrap().get(&tag).cloned() {
+			g.notify_one();
+		}
+		match tokio::time::timeout(Duration::from_secs(30), t).await {
+			Ok(Ok(rep)) if rep.status == 200 => {}
+			other => bad!("held-call-not-answered/lowlevel-http-release", "{:?}", other.map(|r| r.map(|x| x.status))),
+		}
+		out.endings += 1;
+	}
+	for mut ws in wss {
+		ws.close().await;
+		settle(5).await;
+		drop(ws);
+		out.endings += 1;
+	}
+	settle(100).await;
+	out.occupancy_checks += 1;
+	if occ(&guard) != 0 {
+		bad!("occupancy-wrong/slot-not-returned/lowlevel", "every connection has ended but the guard shows {} of {max} in use", occ(&guard));
+	}
+	out.max_served = max;
+	out
+}
+
 fn record(spec: &Spec, o: Out, class: &str, ev: &mut Evidence, violations: &mut Vec<Violation>) {
 	ev.eval();
 	ev.count("attempts", o.attempts as u64);
@@ -1440,6 +1535,24 @@ fn main() {
 	for (e, v) in results {
 		ev.merge(e);
 		violations.extend(v);
+	}
+	if !replay {
+		let n = ctx.tier.pick(200u64, 10_000);
+		let seed = ctx.seed;
+		let res = run_parallel((0..n).collect(), |_, i| block_on_virtual(lowlevel_case(Rng::fork(seed ^ 0x10e, i).next_u64())));
+		for (i, o) in res.into_iter().enumerate() {
+			ev.eval();
+			ev.count("lowlevel_cases", 1);
+			ev.count("lowlevel_attempts", o.attempts as u64);
+			ev.count("lowlevel_refused_429", o.refused as u64);
+			ev.count("occupancy_checks", o.occupancy_checks as u64);
+			if o.admitted > 0 {
+				ev.nontrivial(&("lowlevel", i));
+			}
+			for (sig, d) in o.violations {
+				violations.push(Violation::new(sig, d, json!({"family": "low-level assembly", "case": i})));
+			}
+		}
 	}
 	let mut inconclusive = None;
 	if !tspecs.is_empty() {
